@@ -37,6 +37,16 @@ def _mesh(desc, rng):
     g = desc["gen"]
     if g == "polyline":
         V, E, cls = graphs.make(rng.randrange(2 ** 31))
+        if rng.random() < 0.3:
+            # a polyline assembled element by element on an empty PolyLine object (what the library's own build_tree_as_polyline does), the edges
+            # appended as (child, parent) pairs in either order
+            import mouette as M
+            pl = M.mesh.PolyLine()
+            for p in V:
+                pl.vertices.append(M.Vec(float(p[0]), float(p[1]), float(p[2])))
+            for (a, b) in sorted(E):
+                pl.edges.append((b, a) if rng.random() < 0.5 else (a, b))
+            return pl, V, set(E), "polyline_assembled_directly:" + cls, None
         return build.polyline(V, E, irows=rng.choice(["list", "tuple"])), V, set(E), "polyline:" + cls, None
     if g == "surface":
         z = surfaces.make(rng.randrange(2 ** 31), max_size=6)
